@@ -24,9 +24,12 @@
     overtaken by the publication of an OLDER download, whose answer may predate a rotation; a rejection that rests
     on such a download alone ("the cache was synced since I looked") is a rejection WITHOUT a refresh, although the
     endpoint has been serving the token's key since before the call began.
-  * own-context error ⇒ that call's context was cancelled.  fetch error ⇒ a download that was not
+  * a call's OWN CONTEXT IS LIVE at an instant iff neither `cancel c` nor `expire c` (its deadline passed) has been observed
+    before that instant: a deadline is a cancellation by the clock, and the statement speaks of "its own context".
+    own-context error ⇒ that call's context has ended (cancelled or past its deadline).  fetch error ⇒ a download that was not
     yet announced when the call asked ended with exactly that failure; a download that was aborted
-    by a cancellation fails a call only if that call's own context is cancelled (cancel isolation).
+    by the end of a context (`context canceled` or `context deadline exceeded`: somebody's cancellation or somebody's
+    deadline) fails a call only if that call's own context has ended (cancel isolation, for both kinds of ending).
   * a failed download never discards cached keys: if, at every instant of the call, the key set of the
     most recently retired successful download verifies the token, the call must not end in an error.
   * what counts as a download: the endpoint's answer (`Answer`) is a SUCCESSFUL download exactly when its status is 200 and
@@ -62,7 +65,7 @@ structure MCaller where
   tok : JWS := default
   started : Bool := false
   finished : Bool := false
-  cancelled : Bool := false
+  cancelled : Bool := false              -- the call's own context has ENDED: `cancel c` or `expire c` (deadline passed) was observed
   stale : Fid → Bool := fun _ => false   -- downloads already announced when the call started
   asked : Fid → Bool := fun _ => true    -- downloads already announced when the call turned to the endpoint (`ask`); before that instant: all
   hit : Bool := false                    -- every key set the cache had to hold since the call started verifies the token
@@ -170,6 +173,7 @@ def mstep (m : MState) : Obs → MState
     | none => m
   | .point _ _ => m
   | .ask c => { m with callers := upd m.callers c { m.callers c with asked := m.announced } }
+  | .expire c => { m with callers := upd m.callers c { m.callers c with cancelled := true } }
 
 def mrun (m : MState) (obs : List Obs) : MState := obs.foldl mstep m
 
